@@ -135,7 +135,15 @@ where
                         return Err(PolynomialError::InvalidExponent { pow: pow_str });
                     };
                 };
-                vars.push((var, power));
+                // A repeated variable multiplies: add the exponents
+                if let Some(seen) = vars
+                    .iter_mut()
+                    .find(|(name, _): &&mut (String, f64)| *name == var)
+                {
+                    seen.1 += power;
+                } else {
+                    vars.push((var, power));
+                }
             }
         }
         vars.sort_by(|a, b| a.0.cmp(&b.0));
